@@ -459,6 +459,10 @@ class C14(core.Check):
             n = max(1, min(n, len(plain) - o))
             pairs.append([o, n])
         pairs += [[0, 1], [len(plain) - 1, 1]]
+        # single characters written as a control symbol or with an accent macro (\&, \%, \"o): image of length 1 that
+        # starts at a backslash
+        spots = [i for i, ch in enumerate(plain) if ch in '&%$#_{}' or (ord(ch) > 127 and ch.isalpha())]
+        pairs += [[i, 1] for i in rnd.sample(spots, min(len(spots), 6))]
         r = shellrun.run_shell(['--output', 'json', '--language', lang, 'f.tex'], {'f.tex': src},
                                {'mode': 'offsets', 'pairs': pairs}, workdir=self.tmp)
         if r.timed_out:
